@@ -60,7 +60,10 @@ TxAlphabet ==
   \cup (IF ~WithFeeGrant THEN {} ELSE
        { Tx(<<[t |-> x, granter |-> g, grantee |-> "A3"]>>) : x \in {"FGrant", "FRevoke"}, g \in {"A1", "A4"} }
   \cup { TxFee(m, [nund |-> Exact(m)]) @@ [granter |-> g] : m \in {<<BReg("A3")>>, <<BRec("A3", 1)>>, <<WReg("A3")>>}, g \in {"A1", "A4"} }
-  \cup { TxFee(<<[t |-> "Send", from |-> "A3", to |-> "A1", amt |-> 1, denom |-> "nund"]>>, [nund |-> 1]) @@ [granter |-> "A1"] })
+  \cup { TxFee(<<[t |-> "Send", from |-> "A3", to |-> "A1", amt |-> 1, denom |-> "nund"]>>, [nund |-> 1]) @@ [granter |-> "A1"] }
+  \* explicit fee payers (the payer signs too): A1 sponsors the registry fees of A3, who holds locked eFUND; A3 sponsors A1's
+  \cup { TxFee(m, [nund |-> Exact(m)]) @@ [payer |-> "A1"] : m \in {<<BReg("A3")>>, <<BRec("A3", 1)>>, <<WRec("A3", 1, LastW(1) + 1)>>} }
+  \cup { TxFee(m, [nund |-> Exact(m)]) @@ [payer |-> "A3"] : m \in {<<WReg("A1")>>, <<WRec("A1", 1, LastW(1) + 1)>>} })
 
 Do(ev, ph) ==
   LET r == Step(st, ev) IN
